@@ -134,7 +134,24 @@ def trees(gene_ids: Sequence[str], max_depth: int = 3, max_fan: int = 3):
     return st.recursive(leaf, extend, max_leaves=max(2, max_fan ** 2))
 
 
+def wide_trees(gene_ids: Sequence[str]):
+    """Isozyme-list shaped rules, 8-12 groups of 1-3 genes: their text is longer than 100 characters even with short
+    identifiers (display helpers shorten strings of that length; since seeded change C11-5)."""
+    leaf = st.sampled_from(list(gene_ids))
+    group = st.lists(leaf, min_size=1, max_size=3, unique=True)
+
+    def build(t):
+        outer, groups = t
+        inner = "and" if outer == "or" else "or"
+        return [outer, *[(g[0] if len(g) == 1 else [inner, *g]) for g in groups]]
+
+    return st.tuples(st.sampled_from(["or", "or", "and"]), st.lists(group.filter(lambda g: len(g) >= 2), min_size=8, max_size=12)).map(build)
+
+
 def opt_trees(gene_ids: Sequence[str], p_none: float = 0.3, **kw):
     if not gene_ids:
         return st.none()
-    return st.one_of(st.none(), trees(gene_ids, **kw), trees(gene_ids, **kw))
+    if len(gene_ids) < 2:
+        return st.one_of(st.none(), trees(gene_ids, **kw), trees(gene_ids, **kw))
+    t = trees(gene_ids, **kw)
+    return st.one_of(st.none(), st.none(), st.none(), t, t, t, t, t, t, wide_trees(gene_ids))
